@@ -163,6 +163,14 @@ class HIter(object):
         return self.seq
 
 
+class HEnum(object):
+    """enumerate() over a shared iterator: yields (count, element) and advances the underlying cursor"""
+    def __init__(self, base, start):
+        self.base = base
+        self.p0 = base.pos
+        self.start = start
+
+
 class HFile(object):
     """binary file object open for reading: (data, pos)"""
     def __init__(self, seq, pos=0):
@@ -207,6 +215,21 @@ class SObj(object):
         self.__dict__["_f"][k] = v
 
 
+class ConstFn(object):
+    """a callable input that returns a fixed (symbolic) value, e.g. code.co_lines"""
+    def __init__(self, value):
+        self.value = value
+
+
+class SUnion(SVal):
+    """tagged union of alternative values (e.g. False | None | int); resolved by forking when it is read"""
+    __slots__ = ("tag", "alts")
+
+    def __init__(self, tag, alts):
+        self.tag = tag
+        self.alts = list(alts)
+
+
 class Closure(object):
     def __init__(self, node, frame, name, defaults, kwdefaults):
         self.node = node
@@ -246,7 +269,7 @@ class Frame(object):
 
 
 class Obligation(object):
-    __slots__ = ("name", "kind", "hyps", "goal", "lineno", "status", "backend", "time_s", "model", "detail", "trace", "derived", "_extra")
+    __slots__ = ("name", "kind", "hyps", "goal", "lineno", "status", "backend", "time_s", "model", "detail", "trace", "derived", "_extra", "unfold_depth")
 
     def __init__(self, name, kind, hyps, goal, lineno, detail="", trace=()):
         self.name = name
@@ -262,6 +285,7 @@ class Obligation(object):
         self.trace = tuple(trace)
         self.derived = set()
         self._extra = None
+        self.unfold_depth = None
 
 
 class Run(object):
@@ -292,7 +316,7 @@ class Contract(object):
                  yield_count=None, yield_at=None, yield_post=None, loops=None, result=None, effect=None,
                  inline=False, opaque=(), note="", exc_ensures=None, modifies=(),
                  yield_seq=0, yield_encode=None, yields_eq=None, native_yields=None, native_post=None, findings=(),
-                 name=None, when=None, examples=None, external_args=(), result_pytype=None, externals=()):
+                 name=None, when=None, examples=None, external_args=(), result_pytype=None, externals=(), unfold_depth=None):
         self.target = target
         self.modname, self.qualname = target.split(":")
         self.params = params or {}
@@ -320,6 +344,7 @@ class Contract(object):
         self.name = name or target          # unique key of the contract (several contracts may share a target)
         self.when = when                    # call-site applicability: lambda over call arguments
         self.external_args = list(external_args)
+        self.unfold_depth = unfold_depth     # rounds of definitional unfolding of spec functions per obligation
         self.externals = list(externals)     # assumed contracts of external callees (checked natively during replay)
         self.result_pytype = result_pytype   # python type of the unmodelled result of an external callee
         self.examples = examples            # {param: gen(config, rng, n)} domain-specific inputs for the bounded native search
@@ -496,6 +521,7 @@ class Engine(object):
                 self.emitted.add(key)
                 ob = Obligation(nm, kind, list(self.run.pc), e, lineno, detail, self.run.trace)
                 ob.derived = set(self.run.derived)
+                ob.unfold_depth = getattr(self.current, "unfold_depth", None)
                 self.obligations.append(ob)
             self.run.derived.add(len(self.run.pc))
             self.run.pc.append(e)
@@ -689,8 +715,22 @@ class Engine(object):
             return SInt(ye)
         if isinstance(y, int) and y == 0:
             return SInt(xe)
+        def pow2_factor(e):
+            e = z3.simplify(e)
+            if z3.is_mul(e):
+                for c in e.children():
+                    if z3.is_int_value(c):
+                        v = c.as_long()
+                        if v > 0 and v & (v - 1) == 0:
+                            return v.bit_length() - 1
+            if z3.is_int_value(e) and e.as_long() > 0:
+                v = e.as_long()
+                return (v & -v).bit_length() - 1
+            return None
         for lo, hi in ((xe, ye), (ye, xe)):
-            for k in (8, 16, 3, 4, 6, 1, 2, 24, 32, 5, 7, 12):
+            hint = pow2_factor(hi)
+            cands = ([hint] if hint else []) + [k for k in (8, 16, 3, 4, 6, 1, 2, 24, 32, 5, 7, 12, 18, 30, 36, 9, 10, 11, 13, 14, 15, 20, 28) if k != hint]
+            for k in cands[:8] if hint else cands:
                 m = 1 << k
                 if self.valid(z3.And(lo >= 0, lo < m, hi >= 0, hi % m == 0)):
                     self.assumed.add("x | y == x + y justified by a proved bit-disjointness side condition (width %d) at line %s" % (k, getattr(node, "lineno", "?")))
@@ -760,6 +800,24 @@ class Engine(object):
             return a is b
         if isinstance(a, (bool, SBool)) and isinstance(b, (bool, SBool)):
             return self.equal(a, b)
+        if isinstance(a, bool) != isinstance(b, bool) and (isinstance(a, bool) or isinstance(b, bool)):
+            if isinstance(a, (SInt, SOpt, int)) or isinstance(b, (SInt, SOpt, int)):
+                return False          # True/False are never identical to an int object or None
+        if isinstance(a, (SInt, SOpt, int)) and isinstance(b, (SInt, SOpt, int)) and (is_sym(a) or is_sym(b)):
+            # identity of int objects: different values are never identical; equal values may or may not
+            # be the same object (CPython caches only small ints) -> both outcomes are explored
+            an = a.isnone if isinstance(a, SOpt) else z3.BoolVal(False)
+            bn = b.isnone if isinstance(b, SOpt) else z3.BoolVal(False)
+            if self.decide(z3.And(an, bn)):
+                return True
+            if self.decide(z3.Or(an, bn)):
+                return False
+            av = a.val if isinstance(a, SOpt) else _ie(a)
+            bv = b.val if isinstance(b, SOpt) else _ie(b)
+            if not self.decide(av == bv):
+                return False
+            self.assumed.add("`is` between two ints of equal value: both outcomes explored (object identity of ints is not determined by their value)")
+            return self.decide(z3.Bool(self.fresh("same_object")))
         if is_sym(a) or is_sym(b):
             raise Unsupported("'is' on symbolic operands")
         return a is b
